@@ -11,7 +11,7 @@ import (
 
 // C03 — Mode composition truth table. The full grid
 //
-//	mode(6) x OCSP outcome(4) x aia_strict(2) x CRL outcome(5) x cdp_strict(2) x storage(2) x chain shape(4) = 3840
+//	mode(6) x OCSP outcome(4) x aia_strict(2) x CRL outcome(6) x cdp_strict(2) x storage(2) x chain shape(4) = 4608
 //
 // is one world per cell: the validator is built from JSON through Provision (so mode parsing and the
 // default are part of what is checked), the responder and the CRL origin are scripted to produce
@@ -21,10 +21,10 @@ import (
 
 var c03modes = []string{"", "prefer_ocsp", "prefer_crl", "ocsp_only", "crl_only", "disabled"}
 var c03ocsp = []string{"no-aia", "good", "revoked", "unavailable"}
-var c03crl = []string{"none-known", "listed", "not-listed", "cdp-unavailable", "internal-failure"}
+var c03crl = []string{"none-known", "listed", "not-listed", "cdp-unavailable", "internal-failure", "listed-configured"}
 var c03chains = []string{"ee-ca", "ee-int-root", "two-chains", "leaf-only"}
 
-const c03cells = 6 * 4 * 2 * 5 * 2 * 2 * 4 // = 3840
+const c03cells = 6 * 4 * 2 * 6 * 2 * 2 * 4 // = 4608
 
 func init() {
 	register(&PropDef{ID: "C03", Plan: func(tier string) Plan {
@@ -35,7 +35,7 @@ func init() {
 	}, Run: runC03})
 }
 
-const c03rule = "one run = one cell of mode(unset, prefer_ocsp, prefer_crl, ocsp_only, crl_only, disabled) x OCSP outcome(no AIA, good, revoked, unavailable) x aia_strict x CRL outcome(none known, listed, not listed, CDP unavailable, internal failure = the stored record of the listed certificate is undecodable at lookup time) x cdp_strict x storage(memory, disk) x chain shape(EE+CA, EE+intermediate+root, two chains, directly trusted leaf alone: for that shape only the CRL-side rejections are asserted, the CRL signer being configured); oracle: reject iff (ocspOn and (revoked or (unavailable and aia_strict))) or (crlOn and (listed or internal failure or (cdp unavailable and cdp_strict))), plus side effects: disabled => no request and no work_dir operation after Provision, ocsp_only => no CRL origin contacted and work_dir untouched, crl_only => no responder contacted; non-trivial = the expected verdict is reject or a mechanism is disabled by the mode"
+const c03rule = "one run = one cell of mode(unset, prefer_ocsp, prefer_crl, ocsp_only, crl_only, disabled) x OCSP outcome(no AIA, good, revoked, unavailable) x aia_strict x CRL outcome(none known, listed, listed in a CONFIGURED list while the certificate names no distribution point, not listed, CDP unavailable, internal failure = the stored record of the listed certificate is undecodable at lookup time) x cdp_strict x storage(memory, disk) x chain shape(EE+CA, EE+intermediate+root, two chains, directly trusted leaf alone: for that shape only the CRL-side rejections are asserted, the CRL signer being configured); oracle: reject iff (ocspOn and (revoked or (unavailable and aia_strict))) or (crlOn and (listed or listed-configured or internal failure or (cdp unavailable and cdp_strict))), plus side effects: disabled => no request and no work_dir operation after Provision, ocsp_only => no CRL origin contacted and work_dir untouched, crl_only => no responder contacted; non-trivial = the expected verdict is reject or a mechanism is disabled by the mode"
 
 func runC03(h *Harness) {
 	i := h.Idx
@@ -48,8 +48,8 @@ func runC03(h *Harness) {
 	i /= 4
 	aiaStrict := i%2 == 1
 	i /= 2
-	cr := c03crl[i%5]
-	i /= 5
+	cr := c03crl[i%6]
+	i /= 6
 	cdpStrict := i%2 == 1
 	i /= 2
 	storage := []string{"memory", "disk"}[i%2]
@@ -67,13 +67,19 @@ func runC03(h *Harness) {
 		// CRL's signer can only come from the configuration
 		cfg.TrustedSigFiles = []string{h.WriteFile("trust/a.pem", CertPEM(w.A.Cert))}
 	}
+	crlOnCfg := mode == "" || mode == "prefer_ocsp" || mode == "prefer_crl" || mode == "crl_only"
+	if cr == "listed-configured" && crlOnCfg {
+		// the list is a configured one (crl_urls, its signer configured too); the certificate of the cell names no
+		// distribution point at all: a configured CRL applies to every certificate of its issuer
+		cfg.CRLUrls = []string{loc.URL}
+		cfg.TrustedSigFiles = []string{h.WriteFile("trust/a.pem", CertPEM(w.A.Cert))}
+	}
 	n := h.NewNode("n1", cfg)
 	if err := h.Provision(n); err != nil {
 		h.Violation("C03.provision", "provision-failed:"+mode, "provisioning mode %q failed: %v", mode, err)
 		return
 	}
 	h.Quiesce()
-	crlOnCfg := mode == "" || mode == "prefer_ocsp" || mode == "prefer_crl" || mode == "crl_only"
 	if cr == "internal-failure" && crlOnCfg {
 		// the list is loaded through another certificate first, then the stored record of the listed certificate is
 		// damaged: the lookup of the cell's handshake meets an internal failure
@@ -114,6 +120,8 @@ func runC03(h *Harness) {
 		loc.State = oDown
 	case "internal-failure":
 		serial, cdp = loc.Common, []string{loc.URL}
+	case "listed-configured":
+		serial, cdp = loc.Common, []string{}
 	}
 	switch oc {
 	case "no-aia":
@@ -140,7 +148,7 @@ func runC03(h *Harness) {
 	h.R.Checks++
 	ocspOn := mode == "" || mode == "prefer_ocsp" || mode == "prefer_crl" || mode == "ocsp_only"
 	crlOn := mode == "" || mode == "prefer_ocsp" || mode == "prefer_crl" || mode == "crl_only"
-	reject := (ocspOn && (oc == "revoked" || (oc == "unavailable" && aiaStrict))) || (crlOn && (cr == "listed" || cr == "internal-failure" || (cr == "cdp-unavailable" && cdpStrict)))
+	reject := (ocspOn && (oc == "revoked" || (oc == "unavailable" && aiaStrict))) || (crlOn && (cr == "listed" || cr == "listed-configured" || cr == "internal-failure" || (cr == "cdp-unavailable" && cdpStrict)))
 	if reject || !ocspOn || !crlOn {
 		h.R.NonTrivial = true
 	}
@@ -149,7 +157,7 @@ func runC03(h *Harness) {
 	if chainShape == "leaf-only" {
 		// without an issuer in the chain OCSP cannot be asked and an accept is not demanded; what the CRL side alone
 		// requires still holds: listed / internal failure / strict without a CRL => reject
-		crlReject := crlOn && (cr == "listed" || cr == "internal-failure" || (cr == "cdp-unavailable" && cdpStrict))
+		crlReject := crlOn && (cr == "listed" || cr == "listed-configured" || cr == "internal-failure" || (cr == "cdp-unavailable" && cdpStrict))
 		if crlReject && hs.Err == nil {
 			modeClass := mode
 			if mode == "" {
